@@ -43,8 +43,8 @@ func init() {
 			"nothing is demanded of Value() after exhaustion (it is not called); the block order inside Partitions values and the element order inside MultisetCombinations values are not judged",
 		},
 		Run:            run,
-		MinEvaluations: map[string]int{"quick": 6000, "thorough": 25000},
-		MinNontrivial:  map[string]int{"quick": 2500, "thorough": 10000},
+		MinEvaluations: map[string]int{"quick": 15000, "thorough": 30000},
+		MinNontrivial:  map[string]int{"quick": 4000, "thorough": 8000},
 		RequiredObs:    req,
 	})
 }
@@ -61,6 +61,7 @@ type cbMon struct {
 	illegal  string
 	runaway  bool
 	oddArgs  int64 // legal but unusual (less(i,j) with i >= j)
+	phase    *string
 }
 
 type runawaySentinel struct{ calls int64 }
@@ -72,6 +73,13 @@ func (m *cbMon) enter() {
 		m.runaway = true
 		panic(runawaySentinel{m.inNext})
 	}
+}
+
+func (m *cbMon) during() string {
+	if m.phase == nil {
+		return ""
+	}
+	return " during " + *m.phase
 }
 
 func (m *cbMon) startNext() {
@@ -162,15 +170,16 @@ type iface struct {
 type kase struct {
 	api        string
 	witness    string
+	convKey    string // parameter description used for the convention observation (default: witness)
 	detail     map[string]interface{}
 	build      func() iface // calls the constructor
 	want       [][]int      // canonical objects, in the documented order if ordered
 	ordered    bool
 	orderName  string
-	convention bool                              // 0-vs-1 objects undocumented
-	canon      func(raw []int) ([]int, string)   // canonical form of a yielded value ("" = fine)
-	auxName    string                            // FreqValue / InverseValue
-	auxCheck   func(canon, aux []int) string     // "" = consistent
+	convention bool                            // 0-vs-1 objects undocumented
+	canon      func(raw []int) ([]int, string) // canonical form of a yielded value ("" = fine)
+	auxName    string                          // FreqValue / InverseValue
+	auxCheck   func(canon, aux []int) string   // "" = consistent
 	mon        *cbMon
 	mustPanic  bool // the constructor is documented to panic
 	predDriven bool
@@ -256,6 +265,9 @@ func (r *runner) drive(k *kase, tr *trace) *engine.PanicInfo {
 	expected := len(k.want)
 	if k.convention {
 		expected = 1
+	}
+	if k.mon != nil {
+		k.mon.phase = &tr.phase
 	}
 	return r.c.Call(k.api+"("+k.witness+")", func() {
 		tr.phase = "constructor"
@@ -344,21 +356,25 @@ func (r *runner) run(k *kase) {
 		} else if len(tr.raw) == len(k.want) && !k.convention {
 			want = "false (all objects have been yielded)"
 		}
-		r.violate(k, "panic@"+engine.SiteNoLine(pi.Site), fmt.Sprintf("%s at %s during %s; yielded before: %s", pi.Value, pi.Site, tr.phase, show(tr.raw, 6)), want)
+		r.violate(k, "panic@"+panicFunc(pi), fmt.Sprintf("%s at %s during %s; yielded before: %s", pi.Value, pi.Site, tr.phase, show(tr.raw, 6)), want)
 		return
 	}
 
 	want := k.want
 	if k.convention {
 		// nothing or the single empty object: both accepted, recorded
+		ck := k.convKey
+		if ck == "" {
+			ck = k.witness
+		}
 		switch {
 		case len(tr.raw) == 0:
 			want = nil
-			c.Obs("convention:"+k.api+"("+k.witness+") yields nothing", 1)
+			c.Obs("convention:"+k.api+"("+ck+") yields nothing", 1)
 		default:
 			want = [][]int{{}}
 			if !tr.over && len(tr.raw[0]) == 0 {
-				c.Obs("convention:"+k.api+"("+k.witness+") yields one empty object", 1)
+				c.Obs("convention:"+k.api+"("+ck+") yields one empty object", 1)
 			}
 		}
 	}
@@ -446,24 +462,43 @@ func (r *runner) run(k *kase) {
 		c.Obs("aux_values_checked", len(got))
 	}
 
-	// callback arguments
-	if k.mon != nil && k.mon.illegal != "" {
-		r.violate(k, "illegal-callback-argument", k.mon.illegal, "only arguments of the documented form")
-		return
-	}
-
 	// exhaustion is sticky
 	if tr.lateTrue > 0 {
 		r.violate(k, "not-sticky", fmt.Sprintf("after Next had returned false (all %d objects yielded), further call %d of Next returned true with Value %v", len(got), tr.lateTrue, tr.lateValue),
 			"false on every further call")
 		return
 	}
+	// callback arguments
+	if k.mon != nil && k.mon.illegal != "" {
+		r.violate(k, "illegal-callback-argument", k.mon.illegal, "only arguments of the documented form")
+		return
+	}
+
 	c.Obs("further_next_calls_after_exhaustion", tr.further)
 
 	if len(want) >= 2 && (!k.predDriven || (k.mon != nil && k.mon.rejected > 0)) {
 		c.NT(k.api, k.witness)
 	}
-	c.Sample(k.api, map[string]interface{}{"parameters": k.witness, "objects": len(got), "first": firstOf(tr.raw), "last": lastOf(tr.raw), "next_calls": tr.calls})
+	if len(got) >= 4 || k.api == "Product" && len(got) >= 2 {
+		c.Sample(k.api, map[string]interface{}{"parameters": k.witness, "objects": len(got), "first": firstOf(tr.raw), "last": lastOf(tr.raw), "next_calls": tr.calls})
+	}
+}
+
+// panicFunc names the innermost library function on the stack of a panic
+// (without package path, arguments and line number, so that keys stay stable).
+func panicFunc(pi *engine.PanicInfo) string {
+	const pfx = "github.com/Tom-Johnston/mamba/"
+	for _, line := range strings.Split(pi.Stack, "\n") {
+		if !strings.HasPrefix(line, pfx) {
+			continue
+		}
+		fn := strings.TrimPrefix(line, pfx)
+		if i := strings.LastIndexByte(fn, '('); i > 0 {
+			fn = fn[:i]
+		}
+		return fn
+	}
+	return engine.SiteNoLine(pi.Site)
 }
 
 func firstOf(a [][]int) []int {
@@ -562,7 +597,7 @@ func multisetPermutationsCase(freq []int) *kase {
 		tot += f
 	}
 	ff := cpInts(freq)
-	return &kase{api: "MultisetPermutations", witness: "freq=" + ints(freq), want: refiter.MultisetPermutations(freq), convention: tot == 0,
+	return &kase{api: "MultisetPermutations", witness: "freq=" + ints(freq), want: refiter.MultisetPermutations(freq), convention: tot == 0, convKey: "all frequencies zero",
 		ordered: true, orderName: "lexicographic", detail: map[string]interface{}{"freq": ff},
 		build: func() iface {
 			it := itertools.MultisetPermutations(cpInts(ff))
@@ -645,7 +680,7 @@ func wrap(m *cbMon, p pred, legal func(a []int) string) func([]int) bool {
 		m.enter()
 		if m.illegal == "" {
 			if why := legal(a); why != "" {
-				m.illegal = fmt.Sprintf("callback invoked with %v: %s", a, why)
+				m.illegal = fmt.Sprintf("callback invoked with %v: %s%s", a, why, m.during())
 			}
 		}
 		ok := p.f(a)
@@ -709,7 +744,7 @@ func restrictedPermutationsCase(n int, all [][]int, p pred) *kase {
 		}
 		return ""
 	})
-	return &kase{api: "RestrictedPrefixPermutations", witness: fmt.Sprintf("n=%d,pred=%s", n, p.name), mon: m, predDriven: true, convention: n == 0,
+	return &kase{api: "RestrictedPrefixPermutations", witness: fmt.Sprintf("n=%d,pred=%s", n, p.name), mon: m, predDriven: true, convention: n == 0, convKey: "n=0",
 		ordered: true, orderName: "lexicographic",
 		want:   refiter.FilterPrefixes(all, p.f),
 		detail: map[string]interface{}{"n": n, "predicate": p.name},
@@ -736,7 +771,7 @@ func patternCase(n int, p pred) *kase {
 		return ""
 	})
 	// the reference follows the documented DFS literally
-	return &kase{api: "PermutationsByPattern", witness: fmt.Sprintf("n=%d,pred=%s", n, p.name), mon: m, predDriven: true, convention: n == 0,
+	return &kase{api: "PermutationsByPattern", witness: fmt.Sprintf("n=%d,pred=%s", n, p.name), mon: m, predDriven: true, convention: n == 0, convKey: "n=0",
 		want:   lexSorted(refiter.PatternDFS(n, p.f)),
 		detail: map[string]interface{}{"n": n, "predicate": p.name},
 		build: func() iface {
@@ -826,7 +861,7 @@ func topologicalCase(n int, all [][]int, rel relation) *kase {
 		m.enter()
 		if i < 0 || j < 0 || i >= n || j >= n {
 			if m.illegal == "" {
-				m.illegal = fmt.Sprintf("less(%d,%d) called: outside 0..%d", i, j, n-1)
+				m.illegal = fmt.Sprintf("less(%d,%d) called: outside 0..%d%s", i, j, n-1, m.during())
 			}
 			m.rejected++
 			return false
@@ -840,7 +875,7 @@ func topologicalCase(n int, all [][]int, rel relation) *kase {
 		}
 		return mat[i*n+j]
 	}
-	return &kase{api: "TopologicalSorts", witness: fmt.Sprintf("n=%d,rel=%s", n, rel.name), mon: m, predDriven: true, convention: n == 0,
+	return &kase{api: "TopologicalSorts", witness: fmt.Sprintf("n=%d,rel=%s", n, rel.name), mon: m, predDriven: true, convention: n == 0, convKey: "n=0",
 		want:    refiter.FilterTopological(all, rel.pairs),
 		detail:  map[string]interface{}{"n": n, "less_true_exactly_for": relName(rel.pairs)},
 		auxName: "InverseValue",
@@ -912,7 +947,7 @@ func run(c *engine.Ctx) {
 		c.Obs("oracle_selfchecks_passed", 1)
 	})
 
-	maxN := c.Pick(7, 9)
+	maxN := c.Pick(8, 9)
 	for n := 0; n <= maxN; n++ {
 		n := n
 		c.Unit(fmt.Sprintf("n=%d/Combinations", n), func() {
@@ -964,12 +999,14 @@ func run(c *engine.Ctx) {
 		nSeeded := c.Pick(18, 54)
 		per := 64
 		switch {
+		case n == 6:
+			per = 16
 		case n == 7:
-			per = 8
+			per = 4
 		case n == 8:
-			nSeeded, per = 18, 4
+			nSeeded, per = c.Pick(9, 41), 2
 		case n == 9:
-			nSeeded, per = 6, 2
+			nSeeded, per = 25, 1
 		}
 		fp := fixedPreds(n)
 		total := len(fp) + nSeeded
